@@ -126,13 +126,21 @@ type End struct {
 	// returned is set when the call that was given this endpoint has
 	// returned; lateOps collects the stream operations started afterwards
 	returned atomic.Bool
+	atReturn atomic.Int32
 	lateMu   sync.Mutex
 	lateOps  []string
 }
 
 // MarkReturned records that the call owning this endpoint has returned: from
 // now on the stream belongs to the caller again.
-func (e *End) MarkReturned() { e.returned.Store(true) }
+func (e *End) MarkReturned() {
+	e.atReturn.Store(e.inSend.Load() + e.inRecv.Load())
+	e.returned.Store(true)
+}
+
+// InFlightAtReturn is the number of stream operations that were still in
+// flight on this endpoint at the moment the call owning it returned.
+func (e *End) InFlightAtReturn() int { return int(e.atReturn.Load()) }
 
 // LateOps lists the stream operations that were started on this endpoint
 // after the call owning it had returned.
